@@ -765,7 +765,7 @@ def im12(ctx: Ctx):
                "depends on which equal key was seen first", where(fi, fi.node), sample="str/int/bool/None parameters only")
 
 
-def im13(ctx: Ctx):
+def im13(ctx: Ctx, only_stale=False):
     """IM13: the cache dict of a URL is written in place only by that URL's own lazy accessors (`self._cache[...] = ...` in a
     method) or while the object is being created in the same function. A function that writes into the cache of any other URL
     - the result of a memoised constructor, an argument, another URL it read - plants entries in an object other callers and
@@ -779,6 +779,7 @@ def im13(ctx: Ctx):
             continue
         r = analyze(model, fi)
         sites = {}
+        stale = {}
 
         def owner_of(t):
             while t[0] == "mut":
@@ -796,13 +797,80 @@ def im13(ctx: Ctx):
             ok = (o == ("param", "self") and fi.cls == "URL") or _fresh(model, o) or fi.qual == "_url.URL.__setstate__"
             if not ok:
                 ok = _handed_over_ok(model, e, o)
+            elif _fresh(model, o) and o != ("param", "self"):
+                # an object created here may be pre-filled - but entries taken from ANOTHER URL's cache are judged like any
+                # hand-over: only keys whose definition reads slots the two objects share (`port` reads the scheme)
+                written = e.args if e.kind == "mutate" else (e.value,)
+                foreign = [t for w in written for t in walk(w) if t[0] == "attr" and t[2] == "_cache" and not _fresh(model, t[1])]
+                if foreign:
+                    verdict = _bulk_handover_ok(model, e, o, foreign)
+                    if verdict is None:
+                        # a single entry copied as it is (`new._cache[k] = src._cache[k]`, `.setdefault(k, src._cache[k])`); a value
+                        # *computed* from a foreign entry and other data is not a hand-over and is not judged here
+                        v_ = e.value if e.kind == "store_sub" else (e.args[1] if e.kind == "mutate" and e.method == "setdefault" and len(e.args) == 2 else None)
+                        plain = v_ is not None and v_[0] == "sub" and v_[1][0] == "attr" and v_[1][2] == "_cache"
+                        verdict = _handed_over_ok(model, e, o) if plain else True
+                    ok = verdict
+                    if not ok:
+                        stale[id(e.node)] = True
             sites.setdefault(id(e.node), [e.node, show(o)[:50], []])[2].append(ok)
         for node, who, oks in sites.values():
+            if only_stale and not all(oks) and not stale.get(id(node)):
+                ctx.note(f"IM13: write into the cache of {who} in {fi.qual} (a condition of C08/C09/C10/C20, not of this property)")
+                continue
             ctx.instance(rule)
-            ctx.ob(rule, fi.qual, f"write into the cache of {who}", all(oks),
-                   f"the cache of {who} - not self, not an object created here - is written in place: the object may be shared "
-                   "(memoised constructors return one object to every caller) and the entry was not computed from its own fields",
+            msg = (f"the new URL {who} is pre-filled with entries of another URL's cache whose definition reads a component the two "
+                   "objects do not share (e.g. `port` and `host_port_subcomponent` read the scheme): the entry was computed for the other "
+                   "object and is wrong for this one") if stale.get(id(node)) else \
+                  (f"the cache of {who} - not self, not an object created here - is written in place: the object may be shared "
+                   "(memoised constructors return one object to every caller) and the entry was not computed from its own fields")
+            ctx.ob(rule, fi.qual, f"write into the cache of {who}", all(oks), msg,
                    where(fi, node), sample="self (lazy fill) or a fresh object")
+
+
+def _bulk_handover_ok(model, e, owner, foreign):
+    """`new._cache.update((k, v) for k, v in src._cache.items() if k in KEYS)` (or `if k not in KEYS`): accepted when no
+    inherited key's definition reads a slot that differs between the two objects. None: not this form."""
+    from ..fold import CannotFold, Folder
+    if not (e.kind == "mutate" and e.method == "update" and len(e.args) == 1 and e.args[0][0] == "comp"):
+        return None
+    c = e.args[0]
+    srcs = {t[1] for t in foreign}
+    if len(srcs) != 1 or len(c[3]) != 1 or len(c[2]) != 1 or c[2][0][0] != "tuple" or len(c[2][0][1]) != 2:
+        return None
+    src = next(iter(srcs))
+    cache_t = ("attr", src, "_cache")
+    it = c[3][0]
+    views = (("call", ("attr", cache_t, "items"), (), ()),
+             ("call", ("attr", ("call", ("builtin", "dict"), (cache_t,), ()), "items"), (), ()),
+             ("call", ("attr", ("call", ("attr", cache_t, "copy"), (), ()), "items"), (), ()))
+    if it not in views:
+        return None
+    key, val = c[2][0][1]
+    if not (key[0] == "item" and key[2] == 0 and val[0] == "item" and val[2] == 1 and key[1] == val[1] and key[1][0] == "elem"):
+        return None
+    slots = _slots_of_target(model, e.state, owner)
+    if slots is None:
+        return False
+    changed = _changed_slots(slots, src)
+    deps = CacheDeps(model)
+    included, excluded = None, set()
+    for f_ in (c[4] if len(c) > 4 else ()):
+        neg = False
+        if f_[0] == "unop" and f_[1] == "Not":
+            neg, f_ = True, f_[2]
+        if not (f_[0] == "cmp" and f_[1] in ("In", "NotIn") and f_[2] == key):
+            return False
+        try:
+            coll = set(Folder(model).fold(f_[3]))
+        except (CannotFold, TypeError):
+            return False
+        if (f_[1] == "In") != neg:
+            included = coll if included is None else included & coll
+        else:
+            excluded |= coll
+    inherited = (included if included is not None else deps.universe()) - excluded
+    return not any(deps.of_key(k) & changed for k in inherited if isinstance(k, str))
 
 
 def _handed_over_ok(model, e, owner):
@@ -970,6 +1038,9 @@ def im16(ctx: Ctx):
             name = expr.attr
         return name is not None and model._decorator_base(mi, name) == "cached_property"
 
+    decorated = {n.name for n in cls.body if isinstance(n, ast.FunctionDef) and
+                 any(is_cp(d.func if isinstance(d, ast.Call) else d) for d in n.decorator_list)}
+
     def key_of(expr, depth=0):
         """The cache key a class-level value stores under, None if it is not a cached property, AnalysisError if unknown."""
         if isinstance(expr, ast.Call) and is_cp(expr.func):
@@ -978,6 +1049,8 @@ def im16(ctx: Ctx):
             if len(expr.args) == 1 and isinstance(expr.args[0], ast.Lambda):
                 return "<lambda>"
             raise AnalysisError("IM16: cached_property(...) over an expression whose __name__ is not evident (unknown idiom)")
+        if isinstance(expr, ast.Name) and expr.id in decorated:
+            return expr.id          # `y = x` in the class body: a second name for the descriptor of x
         if isinstance(expr, ast.Call) and isinstance(expr.func, ast.Name) and depth < 3:
             rr = model.resolve_global("_url", expr.func.id)
             if rr and rr[0] == "func":
@@ -1032,3 +1105,45 @@ def im16(ctx: Ctx):
                    + (f", which `{others[0]}` uses too" if others else "") + ": the value read through one attribute is whatever was "
                    "cached first under that key - by the other attribute, a pre-fill or a copy", f"yarl/_url.py:{node.lineno}",
                    sample=f"key {k!r} = attribute name, no other user")
+
+
+def im18(ctx: Ctx):
+    """IM18: entries of a URL's cache are only ever added. Nothing removes one (`del c[k]`, `pop`, `popitem`, `clear`) or replaces
+    the dict of a live URL: the lazy fill is idempotent only as long as a stored entry stays - a second thread that arrives
+    between another thread's fill and its own use finds the key gone (`KeyError` out of copy / pickle / an accessor), and a
+    sequential caller would see an accessor change what a later one costs or returns."""
+    model = ctx.model
+    rule = "IM18"
+    ctx.rule(rule, floor=0, what="no entry is ever removed from a URL's cache")
+    REMOVERS = {"pop", "popitem", "clear", "delitem", "__delitem__"}
+    from .shape_rules import cache_stores
+    cofilled = set()
+    for name, mfi in model.methods("_url", "URL").items():
+        _st, always, _r = cache_stores(model, mfi)
+        cofilled |= {k for k in always if k != name}
+    n = 0
+    for fi in pkg_funcs(model):
+        if fi.module != "_url":
+            continue
+        r = analyze(model, fi)
+        seen = set()
+        for e in r.by_kind("mutate"):
+            if e.method not in REMOVERS or id(e.node) in seen:
+                continue
+            t = e.recv
+            while t[0] == "mut":
+                t = t[1]
+            if not (t[0] == "attr" and t[2] == "_cache") or _fresh(model, t[1]):
+                continue
+            seen.add(id(e.node))
+            n += 1
+            ctx.instance(rule)
+            # tolerated: `pop(<constant key>, default)` of a key nobody reads back right after a fill (it cannot raise and no
+            # fill-then-read sequence depends on the key staying)
+            harmless = e.method == "pop" and len(e.args) == 2 and e.args[0][0] == "const" and e.args[0][1] not in cofilled
+            ctx.ob(rule, fi.qual, f"{show(e.recv)[:40]}.{e.method}({', '.join(show(a)[:20] for a in e.args)})", harmless,
+                   f"an entry is removed from the cache of {show(t[1])[:30]}: the cache of a URL other threads may be reading only grows; "
+                   "a reader that finds the key gone between a fill and its use gets KeyError, and the removal makes one call's "
+                   "outcome depend on another's", where(fi, e.node), sample="entries are only added")
+    ctx.instance(rule)
+    ctx.ob(rule, "<module _url>", "removals from URL caches", True, sample=f"{n} removal(s) found", nontrivial=False)
